@@ -14,7 +14,8 @@ checks, na = [], []
 for p in props:
     pid = p['id']
     path = os.path.join(VERIF, 'vt', 'props', pid.lower() + '.py')
-    if not os.path.exists(path):
+    ready = set(open(os.path.join(VERIF, 'vt', 'props', 'READY')).read().split())
+    if not os.path.exists(path) or pid not in ready:
         na.append({'property_id': pid, 'reason': 'check not built yet in this round (planned, see DESIGN.md section 4); '
                                                  'the technique applies'})
         continue
